@@ -172,6 +172,60 @@ func (t *fnTrans) instr(ins ssa.Instruction) {
 		t.vals[x] = Val{x.Type(), []string{ref}}
 	case *ssa.MakeClosure:
 		t.makeClosure(x)
+	case *ssa.Range:
+		// iteration over a map: a ghost set of visited keys (heap $iter.<name>), empty at the range statement; the
+		// map's key set at this point is remembered (iteration is only modelled over an unchanging key set)
+		mt, ok := under(x.X.Type()).(*types.Map)
+		if !ok {
+			t.errorf("range over %v is not modelled", x.X.Type())
+			return
+		}
+		m := t.val(x.X).C[0]
+		hn := "$iter." + x.Name()
+		t.eng.heapSort[hn] = "(Array Int Bool)"
+		t.heapGet(t.st, hn, "(Array Int Bool)")
+		t.heapSet(t.st, hn, "(Array Int Bool)", "((as const (Array Int Bool)) false)")
+		dn, ds := mapDomHeap(mt)
+		dom0 := t.freshConst("dom0", "(Array Int Bool)")
+		t.assumeRaw(eq(dom0, sel(t.heapGet(t.st, dn, ds), m)))
+		if t.iters == nil {
+			t.iters = map[*ssa.Range]*mapIter{}
+		}
+		t.iters[x] = &mapIter{m: m, mt: mt, heap: hn, dom0: dom0}
+		t.vals[x] = Val{x.Type(), []string{"0"}}
+	case *ssa.Next:
+		rg, ok := x.Iter.(*ssa.Range)
+		it := t.iters[rg]
+		if x.IsString || !ok || it == nil {
+			t.errorf("next over a string or an unknown iterator is not modelled")
+			return
+		}
+		dn, ds := mapDomHeap(it.mt)
+		row := sel(t.heapGet(t.st, dn, ds), it.m)
+		// the key set must be the one seen at the range statement (Go leaves the effect of insertions during
+		// iteration unspecified; such loops are outside the model)
+		t.oblig("maprange", x, "", or(eq(it.m, "0"), eq(row, it.dom0)), "the map's key set is unchanged since the range statement")
+		vis := t.heapGet(t.st, it.heap, "(Array Int Bool)")
+		okc := t.freshConst(x.Name()+".ok", "Bool")
+		kv := t.freshVal(x.Name()+".k", it.mt.Key())
+		vv := t.freshVal(x.Name()+".v", it.mt.Elem())
+		if len(kv.C) != 1 {
+			t.errorf("range over a map with a composite key is not modelled")
+			return
+		}
+		k := t.mapKey(kv)
+		var rd []string
+		for _, c := range flatten(it.mt.Elem()) {
+			vn, vs := mapValHeap(it.mt, c.Suffix, c.Sort)
+			rd = append(rd, sel(sel(t.heapGet(t.st, vn, vs), it.m), k))
+		}
+		t.assumeRaw(imp(okc, and(not(eq(it.m, "0")), sel(row, k), not(sel(vis, k)), eqComps(vv.C, rd))))
+		t.assume(imp(okc, and(t.valueFacts(t.st, kv), t.valueFacts(t.st, vv))))
+		t.nfr++
+		bv := q(fmt.Sprintf("it!q%d", t.nfr))
+		t.assume(imp(not(okc), or(eq(it.m, "0"), fmt.Sprintf("(forall ((%s Int)) (! %s :pattern ((select %s %s)) :pattern ((select %s %s))))", bv, imp(sel(row, bv), sel(vis, bv)), row, bv, vis, bv))))
+		t.heapSet(t.st, it.heap, "(Array Int Bool)", ite(okc, sto(vis, k, "true"), vis))
+		t.vals[x] = Val{x.Type(), append(append([]string{okc}, kv.C...), vv.C...)}
 	case *ssa.If:
 		c := t.val(x.Cond).C[0]
 		t.finishEdges(x.Block(), c)
@@ -698,6 +752,29 @@ func mapValHeap(mt *types.Map, suffix, sort string) (string, string) {
 	return "M." + typeKey(mt.Key()) + "." + typeKey(mt.Elem()) + ".val" + suffix, arr2Sort(sort)
 }
 
+// mapIter: the model of one `range m` over a map.
+type mapIter struct {
+	m    string     // the map reference
+	mt   *types.Map // its type
+	heap string     // ghost heap holding the set of keys already produced
+	dom0 string     // the map's key set at the range statement
+}
+
+// countMapRanges: number of `range` statements over maps in the function.
+func (t *fnTrans) countMapRanges() int {
+	n := 0
+	for _, b := range t.fn.Blocks {
+		for _, ins := range b.Instrs {
+			if r, ok := ins.(*ssa.Range); ok {
+				if _, isMap := under(r.X.Type()).(*types.Map); isMap {
+					n++
+				}
+			}
+		}
+	}
+	return n
+}
+
 func (t *fnTrans) mapKey(v Val) string {
 	if len(v.C) != 1 {
 		t.errorf("unsupported map key type %v", v.T)
@@ -869,6 +946,11 @@ func (t *fnTrans) instrEffects(ins ssa.Instruction, mods map[string]bool) {
 			if sl, ok := under(x.Type()).(*types.Slice); ok {
 				addT("E."+typeKey(sl.Elem()), sl.Elem(), "")
 			}
+		}
+	case *ssa.Next:
+		if rg, ok := x.Iter.(*ssa.Range); ok {
+			mods["$iter."+rg.Name()] = true
+			t.eng.heapSort["$iter."+rg.Name()] = "(Array Int Bool)"
 		}
 	case *ssa.MapUpdate:
 		mt := under(x.Map.Type()).(*types.Map)
